@@ -1,6 +1,6 @@
 """C11 (quantifier upward aggregation) and C12 (quantifier downward = sound instantiation)."""
 from fractions import Fraction as F
-import itertools
+import itertools, os
 import sx, lib, gen_fol, gen_quant
 from framework import Ctx, standard_prologue
 from checks_fol import whole_error, crossed, up_oracle, all_gnds, initial_tables
@@ -42,7 +42,7 @@ def walk(sc, obs):
             continue
         if op[0] in (20, 21, 1, 2):
             amt, (b2, q2) = sx.q(o[0]), qtabs(o[1])
-        elif op[0] in (8, 15):
+        elif op[0] in (7, 8, 15):
             amt, (b2, q2) = None, qtabs(o[0])
         elif op[0] == 12:
             amt, (b2, q2) = None, qtabs(o[1])
@@ -241,6 +241,72 @@ def mon_c05_quant(sc, obs):
                     if l2 < l - tol or u2 > u + tol:
                         return (f"op #{n} {op}: {kind} {i} grounding {g} only tightens from ({l}, {u})", f"({l2}, {u2})", None)
     return None
+
+
+@monitor("c16_quant")
+def mon_c16_quant(sc, obs):
+    """run 1 (rounds of all calls until a round is silent), reset_bounds(), run 2 (the same rounds): right after the reset every
+    quantifier row reads its world default; when both runs ended in a silent round, every table reads as after run 1"""
+    if whole_error(obs):
+        return ("no exception", f"raised error class {obs[1]}", None)
+    kb, worlds, qobjs, ops = sc[1], sc[3], sc[5], sc[6]
+    k = ops.index([7])
+    sts = list(walk(sc, obs))
+    if len(sts) < len(ops) or any(s[4] is None for s in sts):
+        return None
+    after_reset = sts[k][4]
+    for qi, t in enumerate(after_reset[1]):
+        w = sx.bnd(qobjs[qi][4])
+        for g, b in t.items():
+            if b != w:
+                return (f"right after reset_bounds() quantifier {qi} grounding {g} reads its world default {w}", f"{b}", None)
+    rnd = sc[8]          # number of calls in one round
+    if any(s[2] for s in sts[k - rnd:k]) or any(s[2] for s in sts[-rnd:]):
+        return None      # a run did not reach a silent round within the budget
+    run1, run2 = sts[k - 1][4], sts[-1][4]
+    if any(l > u for t in run1[0] + run1[1] for (l, u) in t.values()):
+        return None     # contradictory data: arresting depends on the rows that already exist (known finding of C16)
+    defaults = [[sx.bnd(w) for w in worlds], [sx.bnd(q[4]) for q in qobjs]]
+    # known finding: some quantifier inverted over an instance set that inference itself enlarged later within run 1
+    nb = len(kb)
+    site = None
+    seen = {}
+    for s_ in sts[:k]:
+        if s_[1][0] == 21:
+            qi = s_[1][1]
+            opd = qobjs[qi][1]
+            cnt = len(s_[3][0][opd]) if opd < nb else len(s_[3][1][opd - nb])
+            if qi in seen and seen[qi] != cnt:
+                site = "quantifier-downward-on-grown-instance-set"
+            seen.setdefault(qi, cnt)
+    for kind, a, b, dflt in (("object", run1[0], run2[0], defaults[0]), ("quantifier", run1[1], run2[1], defaults[1])):
+        for i, (ta, tb) in enumerate(zip(a, b)):
+            for g in set(ta) | set(tb):
+                x, y = ta.get(g, dflt[i]), tb.get(g, dflt[i])
+                if x != y:
+                    return (f"run 2 after reset_bounds() reproduces run 1: {kind} {i} grounding {g} = {x}", f"{y}", site)
+    return None
+
+
+def c16_quant_part(ctx):
+    rng = ctx.rng("c16q")
+    scs, meta = gen_quant.gen_k50(rng, 200 if ctx.quick else 2500, downward=True, nested=0.3, fresh_only=True)
+    s2, m2 = gen_quant.gen_k50_nested_full(rng, 40 if ctx.quick else 500)
+    out = []
+    for sc in scs + s2:
+        kb, qobjs = sc[1], sc[5]
+        nonleaf = [i for i, o in enumerate(kb) if o[0] != 0]
+        rnd = [[1, i] for i in nonleaf] + [[20, qi] for qi in range(len(qobjs))] + [[21, qi] for qi in reversed(range(len(qobjs)))] + [[2, i, -1] for i in reversed(nonleaf)]
+        sc[6] = rnd * 4 + [[7]] + rnd * 4
+        while len(sc) < 8:
+            sc.append([])
+        sc.append(len(rnd))
+        out.append(sc)
+    with open(os.path.join(lib.VERIF, "harness", "corpus", "kf_c16_quant_growth.txt")) as f:
+        out.insert(0, sx.loads(f.read().strip()))       # witness of the recorded known finding runs first
+    run_q(ctx, "K7 quantifiers: run 1 / reset_bounds / run 2", out, ["c16_quant"], hashseeds=(0,))
+    ctx.cov["quantifier_distribution"] = qdist(meta + m2)
+    ctx.corpus(["d16_quantifier_reset.py"])
 
 
 def c10_quant_part(ctx):
